@@ -60,9 +60,19 @@ def build_scratch():
     for pkg in ('xtuml', 'bridgepoint'):
         shutil.copytree(os.path.join(REPO, pkg), os.path.join(d, pkg), ignore=ign)
     env = child_env(d)
-    code = ("import xtuml, bridgepoint.oal, bridgepoint.ooaofooa\n"
+    # /repo is an editable install: its import finder also resolves SUBMODULES of the mapped packages, so
+    # `import bridgepoint.__oal_parsetab` would silently fall back to the (possibly stale) cached table in
+    # /repo when the scratch copy has none, and PLY (optimize=1) would use it without any check.  The tables
+    # are therefore generated here with the editable finder removed; afterwards every process finds the
+    # scratch copy's own tables first.
+    code = ("import sys\n"
+            "sys.meta_path[:] = [f for f in sys.meta_path if 'ditable' not in getattr(f, '__name__', type(f).__name__)]\n"
+            "import xtuml, bridgepoint.oal, bridgepoint.ooaofooa\n"
             "l = xtuml.ModelLoader(); l.input('')\n"
             "bridgepoint.oal.parse('')\n"
+            "import os\n"
+            "d = os.path.dirname(bridgepoint.oal.__file__); x = os.path.dirname(xtuml.__file__)\n"
+            "assert all(os.path.exists(os.path.join(a, b)) for a, b in ((d, '__oal_parsetab.py'), (d, '__oal_lextab.py'), (x, '__xtuml_parsetab.py'), (x, '__xtuml_lextab.py'))), 'tables not generated'\n"
             "print(xtuml.__file__)\n")
     r = subprocess.run([PY, '-c', code], env=env, capture_output=True, text=True, timeout=300)
     if r.returncode != 0 or not r.stdout.strip().startswith(d):
